@@ -9,7 +9,8 @@ ID = "C16"
 THEOREM = ("Ufo2ft.C16.deps_rank / C16_total / C16_fuel_irrelevant / C16_explicit_attr / C16_fallback_system / "
            "C16_fallback_unique / C16_rows / C16_explicit / C16_fallback / C16_derived / C16_names / C16_names_compile / "
            "C16_gasp / C16_font / C16_psname / C16_psname_string / C16_psname_ascii / "
-           "C16_intListToNum / C16_compiles_partial / C16_compiles_false")
+           "C16_intListToNum / C16_compiles_partial / C16_compiles_false / C16_infocompiler_total / "
+           "C16_infocompiler_rows / C16_infocompiler_missing_table")
 N = {"quick": 260, "thorough": 6000}
 EXHAUSTIVE = True
 RULE = ("exhaustive: normalizeNameForPostscript on every Unicode scalar value (1 112 064 code points, NFKD of each supplied "
@@ -324,15 +325,19 @@ def agree(req, rep):
 # ------------------------------------------------------------------ findings
 
 def classify_failure(res):
-    """the two known defects of the unchanged tree, recognised by their exact shape; anything else stays a VIOLATION
-    (the PostScript-name leak was repaired by f81aa08: a recurrence is a VIOLATION)"""
+    """the known defect of the unchanged tree (CFF strings) and the repaired InfoCompiler defect, recognised by their exact
+    shape; anything else stays a VIOLATION (the PostScript-name leak was repaired by f81aa08, the InfoCompiler KeyError by
+    the `_set_attrs` guard: a recurrence of either is a VIOLATION)"""
     req, m = res["req"], res["model"]
+    op = req["op"]
+    # repaired (kind "fixed" in known_findings.json, so never suppressed): InfoCompiler raising KeyError because the
+    # temporary compile built no vhea / gasp table.  Still named, so that a recurrence is reported under its shape.
+    if op == "infocompiler" and isinstance(m, dict) and m.get("_missingTable") is True and m.get("err") is None \
+            and req["obs"].get("err") == "KeyError" and m.get("_wf") is True:
+        return {"kind": "infocompiler-missing-table", "via": "vhea-or-gasp-not-built-by-temporary-compile"}
     if not res["agree"] or not isinstance(m, dict):
         return None
-    op = req["op"]
     failed = m.get("_failed")
-    if op == "infocompiler" and failed == ["compiles"] and m.get("err") == "KeyError" == req["obs"].get("err") and m.get("_wf") is True:
-        return {"kind": "infocompiler-missing-table", "via": "vhea-or-gasp-not-built-by-temporary-compile"}
     if op == "font" and failed == ["compiles"] and m.get("err") in ("Other:UnicodeEncodeError", "Other:UnicodeDecodeError") \
             and m.get("_wf") is True and req["in"]["otf"] and req["obs"].get("err") == m.get("err"):
         return {"kind": "cff-string-not-encodable", "via": "latin1-or-ascii-only-top-dict-strings"}
@@ -372,14 +377,17 @@ LEVEL_TEXT = ("Proved for all inputs (Lean): the fallback call graph is acyclic 
               "elision, platform-encoding 10 beyond the BMP, no duplicate keys) and the gasp table are the documented ones; intListToNum is "
               "the sum of 2^i for every list/start/length; normalizeStringForPostscript returns only characters of [33,126] minus "
               "[](){}<>/% (plus the space when allowed) for EVERY string and an arbitrary NFKD function (full strength since the "
-              "repair f81aa08), so every generated PostScript name is clean. Tied to the code by exhaustive enumeration of all Unicode scalar "
+              "repair f81aa08), so every generated PostScript name is clean; InfoCompiler never raises for well-formed overrides on a "
+              "compiled font, shows the merged info in every row of the tables it handles and leaves a table the temporary "
+              "compile does not build (vhea, gasp) exactly as it was. Tied to the code by exhaustive enumeration of all Unicode scalar "
               "values, exhaustive bit lists, the traced call graph, and random attribute subsets through getAttrWithFallback, "
               "compileTTF/compileOTF (in memory and reloaded) and InfoCompiler.")
 LEVEL_NOTE = ("One statement of the property is false of the code and is proved false of the model on a witness (known finding): "
               "compileOTF+save raises UnicodeEncodeError for CFF-bound names outside Latin-1 (ASCII for the weight name), and a "
               "Latin-1 non-ASCII postscriptFontName cannot be reloaded; the theorem proved instead is C16_compiles_partial with the "
-              "exact side condition. A second known finding concerns InfoCompiler (KeyError when the override defines vhea "
-              "metrics for a font without vhea). The PostScript-name leak (272 code points) was repaired in f81aa08; the old "
-              "function is kept as normCharOld with its counterexamples for the record, and the exhaustive enumeration must now "
-              "report zero failures. NFKD, tan and strptime are inputs; IEEE rounding is modelled and measured on every run, not "
-              "proved; the InfoCompiler merge is modelled and checked by declarative predicates on observed fonts but has no theorem.")
+              "exact side condition. Two earlier findings are repaired and now theorems: the PostScript-name leak (272 code "
+              "points, f81aa08; old function kept as normCharOld with its counterexamples) and the InfoCompiler KeyError for a "
+              "table the temporary compile does not build (old behaviour kept as infoCompileOld with its counterexample); the "
+              "exhaustive enumeration must report zero failures and a recurrence of either is a VIOLATION. NFKD, tan and strptime "
+              "are inputs; IEEE rounding is modelled and measured on every run, not proved; the name-table merge of InfoCompiler is "
+              "checked by a declarative predicate on observed fonts but has no theorem.")
